@@ -302,7 +302,7 @@ package compile
 //@ define kindOf(r, b) = smt("Bool", "(= (i_tag %s) (i_tag %s))", r, b)
 //@ func (*Compiler).createRangeBdry
 //@   requires comp != nil && node != nil && base_rb != nil && rb_len(base_rb) >= 1 && len(parsed_rbs) >= 1
-//@   requires forall(k, 0, len(parsed_rbs), (parsed_rbs[k].Min || lexdec(parsed_rbs[k].Start)) && (parsed_rbs[k].Max || lexdec(parsed_rbs[k].End)))
+//@   requires forall(k, 0, len(parsed_rbs), (parsed_rbs[k].Min || parsed_rbs[k].MaxStart || lexdec(parsed_rbs[k].Start)) && (parsed_rbs[k].Max || parsed_rbs[k].MinEnd || lexdec(parsed_rbs[k].End)))
 //@   requires implies(is(base_rb, schema.DrbSlice), forall(i, 0, rb_len(base_rb), !notnum(rb_start(base_rb, i)) && !notnum(rb_end(base_rb, i))))
 //@   ensures result != nil && rb_len(result) == len(parsed_rbs) && forall(k, 0, rb_len(result), cov(base_rb, rb_start(result, k), rb_end(result, k), rb_len(base_rb)))
 //@   ensures implies(is(base_rb, schema.DrbSlice), forall(k, 0, rb_len(result), !notnum(rb_start(result, k)) && !notnum(rb_end(result, k))))
